@@ -320,3 +320,28 @@ Proof.
   simpl. destruct (aget c objs) as [[cur|? ?|? ?]|] eqn:E; try discriminate.
   intros H. inv H. exists cur. split; auto. apply aget_ainsert_eq.
 Qed.
+
+(** ** C14: renewal before expiry *)
+Theorem renew_due_iff force th l n :
+  In n (renew_names force th l) <-> exists o, In (n, o) l /\ (force = true \/ (o_exp o < th)%Z).
+Proof.
+  unfold renew_names. rewrite in_map_iff. split.
+  - intros [[n' o] [E H]]. simpl in E. subst n'. apply filter_In in H. destruct H as [Hin Hb].
+    exists o. split; auto. apply orb_true_iff in Hb. destruct Hb as [Hb|Hb]; [left; auto|right; apply Z.ltb_lt; auto].
+  - intros [o [Hin Hc]]. exists (n, o). split; auto. apply filter_In. split; auto.
+    apply orb_true_iff. destruct Hc as [->|Hc]; [left; auto|right; apply Z.ltb_lt; auto].
+Qed.
+
+Theorem nothing_expiring_nothing_renewed th l :
+  (forall n o, In (n, o) l -> (th <= o_exp o)%Z) -> renew_names false th l = [].
+Proof.
+  intros H. unfold renew_names. induction l as [|[n o] l IH]; simpl; auto.
+  assert (E : (o_exp o <? th)%Z = false) by (apply Z.ltb_ge; apply (H n o); left; reflexivity).
+  rewrite E. simpl. apply IH. intros n' o' Hin. apply (H n' o'). right. auto.
+Qed.
+
+(** Renewal replaces objects under their own names: the set of names of a class is unchanged. *)
+Lemma ainsert_keeps_names {V} n (v : V) l x : amem n l = true -> amem x (ainsert n v l) = amem x l.
+Proof.
+  intros H. rewrite amem_ainsert. destruct (n =? x) eqn:E; auto. apply N.eqb_eq in E. subst. simpl. auto.
+Qed.
